@@ -27,6 +27,8 @@ done
 echo "--- erbium commits done; merging verif branch"
 cd /verif || exit 1
 git pull --no-rebase --no-edit "$base/verif" "$name" 2>&1 | tail -3
+# evidence files are rewritten by every run: keep ours
+for f in $(git diff --name-only --diff-filter=U | grep "^evidence/"); do git checkout --ours -- "$f" && git add "$f"; done
 # generated files some branches still track
 git rm -q coq/_CoqProject 2>/dev/null; git rm -q --cached coq/_CoqProject coq/.nia.cache 2>/dev/null; /verif/tools/mkcoq.sh
 if git status --short | grep -q "^\(DU\|UD\|AA\|UU\)"; then echo "MERGE CONFLICTS:"; git status --short | grep "^\(DU\|UD\|AA\|UU\)"; else git commit -qm "merge builder $name" 2>/dev/null && echo "merged $name"; fi
